@@ -634,6 +634,53 @@ def eval_readlines(ctx, cases, stats):
     return fails, disagree
 
 
+# ------------------------------------------------------------------ concurrent writers on one file object
+def gen_cwrite(quick):
+    cases = []
+    shapes = [([[9000], [9000]], [0, 0]),                       # A pre-empted at its first write (header), B writes
+              ([[9000, 9000], [9000, 12000]], [0, 1]),          # A pre-empted at its second write
+              ([[9000], [9000, 100], [20000]], [1, 0]),         # three writers
+              ([[30, 9000], [5], [9000]], [2, 0])]
+    for i, (threads, gate) in enumerate(shapes):
+        for fmt in ("zlib", "gzip"):
+            if quick and (i + (fmt == "gzip")) % 2 and i > 1:
+                continue
+            cases.append({"kind": "cwrite", "fmt": fmt, "level": 1 + (3 * i) % 9, "threads": threads, "gate": gate,
+                          "seed": i, "grace": 0.4})
+    return cases
+
+
+def judge_cwrite(c, r):
+    """the produced bytes decode with the standard decoder to SOME interleaving of the threads' chunk sequences:
+    every chunk whole, each thread's chunks in its own order, nothing lost, nothing added"""
+    chunks = sh.cw_chunks(c)
+    for t, row in enumerate(chunks):
+        if r["rets"][t] != [len(x) for x in row]:
+            return "writer thread %d: write() returned %s, expected the chunk lengths %s" % (t, r["rets"][t], [len(x) for x in row])
+    total = sum(len(x) for row in chunks for x in row)
+    if r["tell"] != total:
+        return "tell() after all writes is %s, %d bytes were written" % (r["tell"], total)
+    raw = base64.b64decode(r["file"])
+    try:
+        dec = sh.std_decode(raw, c["fmt"])
+    except Exception as e:  # noqa
+        return ("%d threads writing through ONE %s file object (underlying write %s pre-empted): the standard decoder "
+                "rejects the result: %r" % (len(chunks), c["fmt"], c["gate"], e))
+    nxt = [0] * len(chunks)
+    p = 0
+    while p < len(dec):
+        for t, row in enumerate(chunks):
+            if nxt[t] < len(row) and dec.startswith(row[nxt[t]], p):
+                p += len(row[nxt[t]])
+                nxt[t] += 1
+                break
+        else:
+            return "the decoded stream is not an interleaving of the threads' chunks (offset %d of %d)" % (p, len(dec))
+    if any(nxt[t] != len(row) for t, row in enumerate(chunks)):
+        return "chunks were lost: %s of %s written per thread" % (nxt, [len(r_) for r_ in chunks])
+    return None
+
+
 # ------------------------------------------------------------------ evaluation of a batch
 def evaluate(ctx, cases, name, stats, shard=None):
     """runs implementation, oracle and model on read cases.
@@ -810,6 +857,19 @@ def run(ctx):
             disagree.append((diff, c, {"results": r["results"][:8]}))
         elif len(c["chunks"]) > 1:
             stats["nontrivial"].add(json.dumps([c["payload"], c["fmt"], c["level"], c["chunks"][:50], c["ops"][:50]]))
+    # concurrent writers sharing one file object (the class takes a lock so that it stays a stream)
+    cw_cases = gen_cwrite(quick)
+    for c, r in zip(cw_cases, run_impl_cases(cw_cases, nproc=4)):
+        if "skipped" in r:
+            continue
+        if "harness_error" in r:
+            oracle_fail.append(("harness error in the implementation runner: " + r["harness_error"], c, r))
+            continue
+        bad = judge_cwrite(c, r)
+        if bad:
+            oracle_fail.append((bad, c, {"rets": r["rets"], "tell": r["tell"]}))
+        else:
+            stats["nontrivial"].add(json.dumps(c))
     # decide
     for x in stats.get("inconclusive", []):
         ctx.note("inconclusive (returned when retried alone with a 30 s limit): " + x)
@@ -855,7 +915,8 @@ def run(ctx):
         sizes[c["payload"]["n"] if c["payload"]["n"] in SIZES else "other"] = sizes.get(
             c["payload"]["n"] if c["payload"]["n"] in SIZES else "other", 0) + 1
     ctx.finish({
-        "evaluations": len(cases) + len(wcases) + len(rl_cases) + len(big_cases),
+        "evaluations": len(cases) + len(wcases) + len(rl_cases) + len(big_cases) + len(cw_cases),
+        "concurrent_writer_schedules": len(cw_cases),
         "highly_compressible_large_payload_cases": len(big_cases),
         "readline_cases_on_real_bytes": len(rl_cases),
         "distinct_nontrivial": len(stats["nontrivial"]),
@@ -912,7 +973,9 @@ def replay(ctx, path):
     if "harness_error" in r:
         print("replay: harness error", r["harness_error"])
         return 1
-    if c["kind"] == "write":
+    if c["kind"] == "cwrite":
+        bad = judge_cwrite(c, r)
+    elif c["kind"] == "write":
         bad = judge_write(c, r)
     else:
         raw, d, dfile, complete = file_payload(c)
